@@ -58,6 +58,7 @@ type expectation struct {
 	cookies     [][]byte
 	server      string
 	port        uint16
+	portUnjudged bool // a port record of a length other than 2 was sent
 }
 
 // expect is the harness's own reading of the statement, evaluated on the bytes actually sent.
@@ -80,6 +81,9 @@ func expect(s *script, keHost string) expectation {
 		case netlab.RecEnd:
 			ended = true
 		case netlab.RecNextProto:
+			if len(r.Body) != 2 {
+				questionable = true
+			}
 		case netlab.RecAEAD:
 			if len(r.Body) == 2 {
 				aead = int(r.Body[0])<<8 | int(r.Body[1])
@@ -93,6 +97,8 @@ func expect(s *script, keHost string) expectation {
 		case netlab.RecPort:
 			if len(r.Body) == 2 {
 				e.port = uint16(r.Body[0])<<8 | uint16(r.Body[1])
+			} else {
+				questionable, e.portUnjudged = true, true
 			}
 		case netlab.RecError:
 			return expectation{}
@@ -168,9 +174,51 @@ func newFetcher() *ntske.Fetcher {
 
 // ---------------------------------------------------------------- generator
 
+// genFraming builds streams in which a record of a known type has a body that is not two bytes long, followed by
+// bytes arranged so that a reader which consumes two body bytes regardless of the declared length finds plausible
+// records again: every one of them fails the statement's conditions when read with the declared lengths.
+func genFraming(t *rapid.T) []netlab.Rec {
+	np := netlab.Rec{Type: netlab.RecNextProto, Critical: true, Body: netlab.U16(0)}
+	aead := netlab.Rec{Type: netlab.RecAEAD, Critical: true, Body: netlab.U16(15)}
+	ck := netlab.Rec{Type: netlab.RecCookie, Body: rapid.SliceOfN(rapid.Byte(), 1, 124).Draw(t, "fcookie")}
+	end := netlab.Rec{Type: netlab.RecEnd, Critical: true}
+	switch rapid.IntRange(0, 3).Draw(t, "framing") {
+	case 0: // no algorithm selected (empty AEAD body), no cookie: the next record's type field reads as algorithm 15,
+		// its length field as the type of a cookie record
+		c := rapid.SliceOfN(rapid.Byte(), 1, 40).Draw(t, "shadowcookie")
+		body := append([]byte{byte(len(c) >> 8), byte(len(c))}, c...)
+		// the unknown record's body length must read as record type 5 (cookie): pad the body to 5 bytes or use 5
+		if len(body) != 5 {
+			c = c[:min(len(c), 3)]
+			for len(c) < 3 {
+				c = append(c, 0xc0)
+			}
+			body = append([]byte{0, 3}, c...)
+		}
+		return []netlab.Rec{np, {Type: netlab.RecAEAD, Critical: true, Body: nil}, {Type: 15, Body: body}, end}
+	case 1: // an error record hidden behind a next-protocol record with a long body
+		code := rapid.SampledFrom([]uint16{0, 1, 2, 77}).Draw(t, "hidden-error")
+		return []netlab.Rec{{Type: netlab.RecNextProto, Critical: true, Body: []byte{0, 0, 0, 0x63, 0, 6}},
+			{Type: netlab.RecError, Critical: true, Body: netlab.U16(code)}, aead, ck, end}
+	case 2: // a critical unknown record hidden behind an empty port record
+		return []netlab.Rec{np, aead, ck, {Type: netlab.RecPort, Body: nil}, {Type: 0x1234, Critical: true, Body: []byte{0, 2, 0, 15}}, end}
+	default: // an error record with an empty body: still an error record
+		return []netlab.Rec{np, aead, ck, {Type: netlab.RecError, Critical: true, Body: nil}, {Type: 9, Body: []byte{0, 0}}, end}
+	}
+}
+
 func genScript(t *rapid.T) *script {
 	s := &script{CutAt: -1}
 	s.ALPN = rapid.SampledFrom([]string{"ntske/1", "ntske/1", "ntske/1", "ntske/1", "ntske/1", "both", "other", "none"}).Draw(t, "alpn")
+	if rapid.IntRange(0, 7).Draw(t, "framing-script") == 0 {
+		s.ALPN = "ntske/1"
+		s.Recs = genFraming(t)
+		for _, r := range s.Recs {
+			s.RecsDesc = append(s.RecsDesc, fmt.Sprintf("type=%d critical=%v len=%d", r.Type, r.Critical, len(r.Body)))
+		}
+		s.Segments = []int{1 << 20}
+		return s
+	}
 	ncookies := rapid.OneOf(rapid.IntRange(1, 8), rapid.Just(8), rapid.Just(1)).Draw(t, "ncookies")
 	aead := uint16(15)
 	var recs []netlab.Rec
@@ -214,7 +262,8 @@ func genScript(t *rapid.T) *script {
 		var r netlab.Rec
 		switch rapid.SampledFrom([]string{"unknown-noncritical", "unknown-noncritical", "unknown-critical", "error", "warning"}).Draw(t, "inserted") {
 		case "unknown-noncritical":
-			r = netlab.Rec{Type: rapid.Uint16Range(8, 0x7fff).Draw(t, "utype"), Body: make([]byte, rapid.IntRange(0, 40).Draw(t, "ulen"))}
+			// type 15 reads as "AES-SIV-CMAC-256" when a record boundary is lost; small types sit next to the known ones
+			r = netlab.Rec{Type: rapid.OneOf(rapid.SampledFrom([]uint16{15, 15, 8, 9, 16, 0x0100}), rapid.Uint16Range(8, 0x7fff)).Draw(t, "utype"), Body: make([]byte, rapid.IntRange(0, 40).Draw(t, "ulen"))}
 		case "unknown-critical":
 			r = netlab.Rec{Type: rapid.Uint16Range(8, 0x7fff).Draw(t, "utype"), Critical: true, Body: make([]byte, rapid.IntRange(0, 40).Draw(t, "ulen"))}
 		case "error":
@@ -224,6 +273,23 @@ func genScript(t *rapid.T) *script {
 		}
 		pos := rapid.IntRange(0, len(recs)).Draw(t, "inspos")
 		recs = append(recs[:pos], append([]netlab.Rec{r}, recs[pos:]...)...)
+	}
+	// records of known types whose body is not the two bytes their type prescribes (an empty AEAD record is what a
+	// server sends when it supports none of the offered algorithms), and bodies that look like record headers: a
+	// reader that does not consume exactly the declared body length loses the record boundaries
+	hdrLike := rapid.SliceOfN(rapid.SampledFrom([]byte{0x00, 0x00, 0x80, 0x01, 0x02, 0x03, 0x04, 0x05, 0x06, 0x07, 0x0f, 0x10, 0xc0}), 0, 12)
+	if rapid.IntRange(0, 2).Draw(t, "odd-known-bodies") == 0 {
+		for n := rapid.IntRange(1, 3).Draw(t, "nodd"); n > 0 && len(recs) > 0; n-- {
+			i := rapid.IntRange(0, len(recs)-1).Draw(t, "oddpos")
+			switch recs[i].Type {
+			case netlab.RecNextProto, netlab.RecAEAD, netlab.RecPort, netlab.RecError, netlab.RecWarning:
+				recs[i].Body = hdrLike.Draw(t, "oddbody")
+			default:
+				if recs[i].Type >= 8 { // unknown record: a body that looks like records
+					recs[i].Body = hdrLike.Draw(t, "ubody")
+				}
+			}
+		}
 	}
 	if rapid.IntRange(0, 9).Draw(t, "no-end") != 3 {
 		recs = append(recs, netlab.Rec{Type: netlab.RecEnd, Critical: true})
@@ -346,7 +412,7 @@ func fetch(t failer, f *ntske.Fetcher, m *model, s *script, hist *[]string) stri
 	if !sameCookies(data.Cookie, e.cookies) {
 		t.Fatalf("cookie pool after the exchange has %d cookies, %d were issued (or contents/order differ) (history %v)", len(data.Cookie), len(e.cookies), *hist)
 	}
-	if data.Server != e.server || data.Port != e.port {
+	if data.Server != e.server || (data.Port != e.port && !e.portUnjudged) {
 		t.Fatalf("NTP server to use is %s:%d, the exchange named %s:%d", data.Server, data.Port, e.server, e.port)
 	}
 	if data.Algo != 15 {
@@ -356,7 +422,7 @@ func fetch(t failer, f *ntske.Fetcher, m *model, s *script, hist *[]string) stri
 	return "exchange-succeeded"
 }
 
-var rec = ev.New("c20/fetcher-histories", "rapid state machine on one real ntske.Fetcher (TLS) against the harness's scripted TLS 1.3 key-exchange server (run-time self-signed certificate): each step is one FetchData call; when the model pool is empty the server plays a generated script: ALPN {ntske/1, both, other, none}; record stream from a grammar (next protocol, AEAD 15 / other / missing, optional server and port records, 0..8 cookies of 1..300 bytes, optional reordering, inserted unknown non-critical / unknown critical / error (0,1,2,77) / warning records at any position, end record present or missing, records after the end), truncation at any byte offset, write segmentation {1 byte, n bytes, random sizes, all at once}, connection reset after the handshake or after sending, or (rarely) left open and silent for longer than the exchange's time limit. Oracle: success only if the statement's conditions hold on the bytes sent (own record parser); plain well-formed streams (with unknown non-critical records, extra records after the end, any segmentation) must succeed; on success keys == exporter values of the server's side of the same TLS session (label and contexts written out independently), C2S != S2C, pool == issued cookies in order, server/port as named or KE host:123; following calls are served from the pool without a new connection, one cookie each, same keys; after a failure the next call opens exactly one new connection and depends on the new script only. One evaluation = one FetchData call. Non-trivial: history with a script that delivers >= 1 cookie and then fails, a success after a failure, or a segmented record; distinct by history hash")
+var rec = ev.New("c20/fetcher-histories", "rapid state machine on one real ntske.Fetcher (TLS) against the harness's scripted TLS 1.3 key-exchange server (run-time self-signed certificate): each step is one FetchData call; when the model pool is empty the server plays a generated script: ALPN {ntske/1, both, other, none}; record stream from a grammar (next protocol, AEAD 15 / other / missing, optional server and port records, 0..8 cookies of 1..300 bytes, optional reordering, inserted unknown non-critical / unknown critical / error (0,1,2,77) / warning records at any position, end record present or missing, records after the end; known record types with bodies of 0..12 bytes instead of 2 and bodies that look like record headers), truncation at any byte offset, write segmentation {1 byte, n bytes, random sizes, all at once}, connection reset after the handshake or after sending, or (rarely) left open and silent for longer than the exchange's time limit. Oracle: success only if the statement's conditions hold on the bytes sent (own record parser); plain well-formed streams (with unknown non-critical records, extra records after the end, any segmentation) must succeed; on success keys == exporter values of the server's side of the same TLS session (label and contexts written out independently), C2S != S2C, pool == issued cookies in order, server/port as named or KE host:123; following calls are served from the pool without a new connection, one cookie each, same keys; after a failure the next call opens exactly one new connection and depends on the new script only. One evaluation = one FetchData call. Non-trivial: history with a script that delivers >= 1 cookie and then fails, a success after a failure, or a segmented record; distinct by history hash")
 
 func TestPropFetcherHistories(t *testing.T) {
 	vt.Check(t, 250, 2500, func(t *rapid.T) {
